@@ -67,6 +67,32 @@ def is_node(s) -> bool:
 
 # {{{ build
 
+def build_shared(s, memo=None):
+    """Like build(), but equal sub-specs become the *same* object (hash-consing), the way
+    expressions assembled from shared Python variables look."""
+    if memo is None:
+        memo = {}
+    if s in memo:
+        return memo[s]
+    t = s[0]
+    if t[0].isupper():
+        cls = _lookup(t)
+        with warnings.catch_warnings():
+            warnings.simplefilter("ignore")
+            o = cls(*[build_shared(c, memo) for c in s[1:]])
+    elif t == "tuple":
+        o = tuple([build_shared(c, memo) for c in s[1:]])
+    elif t == "map":
+        o = immutabledict([(k, build_shared(v, memo)) for k, v in s[1:]])
+    else:
+        o = build(s)
+    try:
+        memo[s] = o
+    except TypeError:
+        pass
+    return o
+
+
 def build(s):
     t = s[0]
     if t in _CONST:
